@@ -94,7 +94,15 @@ func H_C12_cam() {
 	// predicate
 	var pred fFilter
 	havePred := vChoice("pred.kind", 0, vBound("pred-kinds", 1, 2))
+	if havePred == 1 && vChoice("pred.condition", 0, 1) == 1 {
+		havePred = 3
+	}
 	switch havePred {
+	case 3: // condition(leaf ? pass_all-or-absent : pass_all-or-absent)
+		pl := c05Leaf([]int{0, 7}[vChoice("pred.cond.leaf", 0, 1)]) // pass_all(flag) or cells_per_row_offset(n)
+		haveT, haveE := vChoice("pred.true", 0, 1) == 1, vChoice("pred.false", 0, 1) == 1
+		pred = c05Condition(pl, c05Leaf(8), haveT, c05Leaf(8), haveE)
+		pred.rowLvl = pl.rowLvl
 	case 1:
 		pred = c05BasisLeaf("pred")
 	case 2:
